@@ -417,6 +417,45 @@ func (e *cryptoEnum) run() {
 			}
 		}
 	}
+	// octet-length sweep: every payload / message length of 0..2100 octets (thorough: 0..8300 and around 16 384 and 65 535)
+	// with one parameter tuple per algorithm and entry point — internal size thresholds (stack buffers, block and window
+	// sizes, pools) sit at lengths no boundary alphabet contains
+	{
+		top := 2100
+		if thorough {
+			top = 8300
+		}
+		var lens []int
+		for l := 0; l <= top; l++ {
+			lens = append(lens, l)
+		}
+		if thorough {
+			for _, b := range []int{16384, 32768, 65535} {
+				for d := -9; d <= 9; d++ {
+					if b+d <= 65535 {
+						lens = append(lens, b+d)
+					}
+				}
+			}
+		}
+		for li, l := range lens {
+			if li%64 == 0 && !e.mine() {
+				// sharding by blocks of 64 lengths
+				continue
+			}
+			if li%64 != 0 && !e.c.Mine(e.unit) {
+				continue
+			}
+			for alg := 1; alg <= 3; alg++ {
+				for _, via := range vias {
+					e.one(alg, via, pubKey2, 0x00A1B2C3, 0x15, uint8(l&1), l*8, 2)
+				}
+			}
+			if li%64 == 63 {
+				e.c.Tick()
+			}
+		}
+	}
 	// history family: the functions must be pure — the same key/COUNT/bearer/direction used repeatedly with
 	// ascending, descending and repeated lengths (a keystream cache or other state carried between calls shows here)
 	for alg := 1; alg <= 3; alg++ {
@@ -453,7 +492,7 @@ func cryptoRule(what string) func(string) string {
 		if tier == "thorough" {
 			d = "single key deviations at every length 0..320; the complete count x bearer x direction grid at the edge lengths; all pairs (key, count) of deviations x direction x bearer in {0,1,16,31}; long inputs up to 65 528 bits hitting every residue mod 32"
 		}
-		return what + " Deviation-bounded enumeration over (key, COUNT, bearer, direction, length, pattern) from published defaults: key alphabet = 2 published keys, zero, ones, the 128 single-bit keys, the 16 single-octet keys; COUNT alphabet = 0, 1, FFFFFFFF, 00FFFFFF, 7FFFFFFF, A5A5A5A5 and the 32 single-bit counts; all 32 bearers x 2 directions; every bit length 0..320 with 4 content patterns; " + d + "; through both the wrapper and the per-algorithm functions; payloads and messages are handed over as windows into a larger buffer (spare capacity and non-zero canary octets around them; the surroundings must be unchanged, and octets beyond the stated length must not influence the result); plus call histories (one parameter tuple reused with ascending, descending and repeated lengths). Mixed-call histories: all ordered pairs and a-b-a triples (thorough: all triples) over an alphabet of 66 calls — ciphering and integrity x algorithm 1..3 x wrapper/direct x 0, 1, 16, 33 octets with non-zero COUNT, bearer and direction, plus the refused calls (NULL and unknown algorithm, bearer 32, direction 2, nil payload) — every valid call of the property's kind compared with the standard function, so that a scratch block, IV or keystream kept between calls of different algorithms shows. A case is distinct by its parameter tuple; component checks (hooks) compare every table entry and component function exhaustively."
+		return what + " Deviation-bounded enumeration over (key, COUNT, bearer, direction, length, pattern) from published defaults: key alphabet = 2 published keys, zero, ones, the 128 single-bit keys, the 16 single-octet keys; COUNT alphabet = 0, 1, FFFFFFFF, 00FFFFFF, 7FFFFFFF, A5A5A5A5 and the 32 single-bit counts; all 32 bearers x 2 directions; every bit length 0..320 with 4 content patterns; " + d + "; through both the wrapper and the per-algorithm functions; payloads and messages are handed over as windows into a larger buffer (spare capacity and non-zero canary octets around them; the surroundings must be unchanged, and octets beyond the stated length must not influence the result); every octet length 0..2100 (thorough 0..8300 and ±9 around 16 384, 32 768, 65 535) per algorithm and entry point; plus call histories (one parameter tuple reused with ascending, descending and repeated lengths). Mixed-call histories: all ordered pairs and a-b-a triples (thorough: all triples) over an alphabet of 66 calls — ciphering and integrity x algorithm 1..3 x wrapper/direct x 0, 1, 16, 33 octets with non-zero COUNT, bearer and direction, plus the refused calls (NULL and unknown algorithm, bearer 32, direction 2, nil payload) — every valid call of the property's kind compared with the standard function, so that a scratch block, IV or keystream kept between calls of different algorithms shows. A case is distinct by its parameter tuple; component checks (hooks) compare every table entry and component function exhaustively."
 	}
 }
 
